@@ -8,6 +8,8 @@
    up to 3 items x boundary target capacities and writes the specified outcome; the real decode_all and
    decode_all_to_vec are run on every case.
 4. Every truncation point of small real frames (decodecorpus, libzstd, ruzstd) at property level.
+5. Random schedules on real frames, a fifth of them on a truncated source, recorded call by call (consumed, finished,
+   collectable, delivered) and validated by TLC against Trace_FrameDecoder.tla with ConsumedOK / NoFinishOnPrefix as invariants.
 """
 import json, os, re
 from ..common import *
@@ -106,6 +108,8 @@ def check(ctx):
     ctx.cov["real_frame_truncation"] = {k: tj[k] for k in ("frames", "cases", "mismatches")}
     for m in tj["first"]:
         ctx.violation("truncated real frame %s at %s via %s: %s" % (m["frame"], m["cut"], m["entry"], m["error"]), m, tag="real")
+    # ---- 5. recorded schedules on real frames (a fifth of them on a truncated source) validated against the specification ----
+    fdlib.trace_real_frames(ctx, 4 if q else 40, idx, salt=10)
     ctx.assumptions += ["multi-frame outcomes are enumerated over an alphabet of 13 item kinds; truncated items only at the end of the input",
-                        "regenerated sizes of compressed blocks of real frames are not modelled: real frames are checked at property level only"]
+                        "regenerated sizes of compressed blocks of real frames are taken from the decoder's block events (their sum is the reference decoder's content length)"]
     return ctx.finish("model_checking")
